@@ -94,6 +94,19 @@ var scenarios = []schedrig.Scenario{
 		w.Until(func() bool { return w.Seen("key:z") })
 		w.Vx.Close()
 	}},
+	{Name: "clipboard-after-unsolicited-report", Queue: 8, Body: func(w *schedrig.World) {
+		// an OSC 52 report nobody is waiting for (a repeated reply, or one that came after the caller gave
+		// up) is not the answer to the next request; the key typed behind it shows when it has been dealt with
+		schedrig.TypeBytes(w, "osc52+y", "\x1b]52;c;c3RhbGU=\x1b\\y")
+		w.Until(func() bool { return w.Seen("key:y") })
+		ctx, cancel := vctx.WithTimeout(vctx.Background(), 20*time.Millisecond)
+		s, err := w.Vx.ClipboardPop(ctx)
+		cancel()
+		if err == nil && s != "hello" {
+			w.Failf("clipboard", "ClipboardPop returned %q, the terminal answered this request with \"hello\"", s)
+		}
+		w.Vx.Close()
+	}},
 	{Name: "colour-queries", Queue: 8, Caps: colourCaps, Hold: true, Body: func(w *schedrig.World) {
 		release(w, false)
 		schedrig.TypeBytes(w, "k", "k")
@@ -153,5 +166,5 @@ var scenarios = []schedrig.Scenario{
 func main() {
 	_ = vaxis.Key{}
 	schedrig.QuickFairOnly = true
-	schedrig.Main("C03", scenarios, "CursorPosition with the report early / late / never (once, twice, unanswered then F3 and Shift+F3), ClipboardPop against its context deadline, QueryForeground with a held reply and typed input, a colour query racing with an unsolicited OSC 11 report, an in-band resize report racing with rendering, bracketed paste + mouse + focus reports into a 2-slot queue, a colour-theme report arriving around Suspend/Resume")
+	schedrig.Main("C03", scenarios, "CursorPosition with the report early / late / never (once, twice, unanswered then F3 and Shift+F3), ClipboardPop against its context deadline and after an unsolicited OSC 52 report, QueryForeground with a held reply and typed input, a colour query racing with an unsolicited OSC 11 report, an in-band resize report racing with rendering, bracketed paste + mouse + focus reports into a 2-slot queue, a colour-theme report arriving around Suspend/Resume")
 }
